@@ -309,14 +309,14 @@ class RecordingTreeParser(TreeParser):
         return super().end(queue, objects, qname, text, tail)
 
 
-def write_events(events, writer):
+def write_events(events, writer, ns_map=None):
     out = io.StringIO()
-    w = writer(config=SerializerConfig(), output=out, ns_map={})
+    w = writer(config=SerializerConfig(), output=out, ns_map=dict(ns_map or {}))
     w.write(iter(events))
     return out.getvalue()
 
 
-def run_one(b, handler, pid):
+def run_one(b, handler, pid, ns_maps=()):
     res = {"handler": handler, "pid": pid}
     with warnings.catch_warnings(record=True) as wlist:
         warnings.simplefilter("always")
@@ -359,6 +359,25 @@ def run_one(b, handler, pid):
         except Exception as ex:
             outs.append({"err": "write: " + type(ex).__name__ + ": " + str(ex)[:160]})
     res["outs"] = outs
+    # the same value under user supplied prefix maps (a fresh dict per call: the writer mutates it)
+    outs_ns = []
+    for pairs in ns_maps:
+        user = {p: u for p, u in pairs}
+        for wr in WRITERS:
+            try:
+                if pid is None:
+                    text = write_events(events, wr, user)
+                else:
+                    text = XmlSerializer(context=CTX, writer=wr).render(obj, ns_map=dict(user))
+                o = infoset_both(text)
+                if "err" in o:
+                    o["text"] = text[:400]
+            except Exception as ex:
+                o = {"err": "write: " + type(ex).__name__ + ": " + str(ex)[:160]}
+            o["ns_map"] = [list(x) for x in pairs]
+            o["writer"] = wr.__name__
+            outs_ns.append(o)
+    res["outs_ns"] = outs_ns
     return res
 
 
@@ -371,9 +390,9 @@ def main():
         for h in doc.get("handlers", ["native", "lxml"]):
             r["vis"][h] = observe(h, b)
             if doc.get("tree", True):
-                r["runs"].append(run_one(b, h, None))
+                r["runs"].append(run_one(b, h, None, doc.get("ns_maps", ())))
             for pid in doc.get("placements", []):
-                r["runs"].append(run_one(b, h, pid))
+                r["runs"].append(run_one(b, h, pid, doc.get("ns_maps", ())))
         out["results"].append(r)
     json.dump(out, sys.stdout)
 
